@@ -29,7 +29,10 @@ CLAIM = dict(
           "specialisation that compiles: indexing views transpose/moveaxis/reshape/broadcast_to/tile/repeat/flip/roll/expand_dims/slice, "
           "max/avg_pool2d with kernel, stride and BOTH ceil_mode values, reductions with axis/axes, dtype, initial, keepdims, "
           "cumsum/cumprod, seven parameterised activations, matmul, where, concatenate(axis), depth-2 compositions) with NON-default "
-          "attribute values: apply(extraction) must equal the view in shape and every element, and the view's shape the generator's."),
+          "attribute values: apply(extraction) must equal the view in shape and every element, and the view's shape the generator's; "
+          "and a NAME-TO-NAME sweep over the functor table (118 public functor objects of functional/: every ufunc with its reduce_ / "
+          "accumulate_ / outer_ forms, the activations, the non-ufunc functors): fn::x[attributes](operands) == view::x(operands, "
+          "attributes) in shape and every element; 4 objects are compile-rejected by the library and listed in drivers/c14f.cpp."),
     ref="5.14", technique="Coq proof (stack-machine compilation, induction on trees / chunk lists) + differential correspondence", extra="")
 RULE = ("36 pipelines (single functors with/without attributes, compositions of 2..4 functors, binary functors in every position, "
         "both parenthesisations; pipelines ending in every combinator swap/dup/dig1..3/bury1..3 followed by the non-commutative "
@@ -61,7 +64,9 @@ def drivers(tier):
     # c14a (extraction of attribute-carrying views) takes the place of the asan build of c14.cpp (functor pipelines are pure
     # value code; the asan flavour stays on the extraction driver c14x, where the lifetime defect was found)
     return {"c14": [("c14.cpp", "ndebug", ()), ("c14a.cpp", "ndebug", ()), ("c14g.cpp", "ndebug", ("-DC14G_PART=1",))],
-            "c14x": [("c14x.cpp", "ndebug", ()), ("c14x.cpp", "asan", ("-O0", "-g0")), ("c14g.cpp", "debug", ("-DC14G_PART=2",))]}
+            "c14x": [("c14x.cpp", "ndebug", ()), ("c14x.cpp", "asan", ("-O0", "-g0")), ("c14g.cpp", "debug", ("-DC14G_PART=2",))],
+            # name-to-name sweep over the functor table, two builds of one source (15-25 s each)
+            "c14f": [("c14f.cpp", "ndebug", ("-DC14F_PART=1",)), ("c14f.cpp", "debug", ("-DC14F_PART=2",))]}
 
 
 def _table(src, macro):
@@ -78,6 +83,10 @@ def _dags():
     txt = open(os.path.join(os.path.dirname(__file__), "..", "..", "drivers", "c14g.cpp")).read()
     a = txt.index("#if C14G_PART == 1"); b = txt.index("#else", a); c = txt.index("#endif", b)
     return re.findall(r'X\("([^"]+)",', txt[a:b]), re.findall(r'X\("([^"]+)",', txt[b:c])
+def _functors():
+    txt = open(os.path.join(os.path.dirname(__file__), "..", "..", "drivers", "c14f.cpp")).read()
+    return re.findall(r'    X\("([^"]+)",', txt)
+FUNCTORS = _functors()                                                 # the functor table (one row per public functor object)
 DAGS1, DAGS2 = _dags()                                                 # view DAG programs (hand-written, random)
 def _comps(t): return [[]] if t == 0 else [[k] + r for k in range(1, t + 1) for r in _comps(t - k)]
 def splits(arity):
@@ -222,6 +231,11 @@ def gen_cases(rng, tier):
             return [rng.choice([-1, 1]) * rng.choice([2 ** 24 + 1, 2 ** 53 + 1, 2 ** 53 + 3, 2 ** 31 + 1, 9007199254740993, 2 ** 40 + 7]) for _ in range(n)]
         out.append(("attributes", "attr S:%s %s %s L:%s L:%s S:%s" % (name, A(sa, data(sa)), A(sb, data(sb)), ",".join(map(str, P)), ",".join(map(str, osh)),
                                                                     "f64" if kind in ("act", "float") else "int"), "c14"))
+    for name in FUNCTORS:
+        for _ in range(2 if tier == "quick" else 10):
+            # 3x4 operands with DISTINCT entries (quarters), negatives included: reduce / accumulate / outer / elementwise differ visibly
+            va = rng.sample([k for k in range(-30, 31) if k], 12); vb = rng.sample([k for k in range(-30, 31) if k], 12)
+            out.append(("functor-table", "fnview S:%s %s %s" % (name, A((3, 4), va), A((3, 4), vb)), "c14f"))
     for prog in DAGS1: out.append(("dags", "dag S:%s" % prog, "c14"))
     for prog in DAGS2: out.append(("dags-random", "dag S:%s" % prog, "c14x"))
     for name in FIXTREES:
@@ -238,6 +252,7 @@ def nontrivial(line):
     if p[0] == "ext": return depth(parse(p[3][2:])) >= 2
     if p[0] == "dag": return p[1].count(";") >= 3
     if p[0] == "attr": return True
+    if p[0] == "fnview": return True
     return False
 
 
@@ -250,6 +265,12 @@ def distribution(streams):
         if p[0] == "ext":
             t = parse(p[3][2:]); depths[str(depth(t))] += 1; wfc["wf" if wf(t) else "outside-wf"] += 1
     return {"ops": dict(kinds), "curry_splits": dict(splits), "tree_depths": dict(depths), "tree_class": dict(wfc)}
+
+
+def equal(a, b):
+    """fnview lines: the expected line is "same *": the driver found functor call == view call (any shape)"""
+    if b == "same *": return a == b or (a.startswith("same ") and len(a) > 5)
+    return a == b or " ".join(a.split()) == " ".join(b.split())
 
 
 def classify(line, impl, spec, model):
